@@ -243,6 +243,17 @@ class DegreeInterp:
             return Val(v.deg)
         if isinstance(e, (ast.Tuple, ast.List)):
             return Val(elems=[self.ev(x, env, cls) for x in e.elts])
+        if isinstance(e, (ast.GeneratorExp, ast.ListComp)) and len(e.generators) == 1 and not e.generators[0].ifs \
+                and isinstance(e.generators[0].target, ast.Name):
+            # one plain generator over a sequence with known components: the result has one component per element
+            it0 = self.ev(e.generators[0].iter, env, cls)
+            if it0.elems and len(it0.elems) <= 8:
+                out_elems = []
+                for x in it0.elems:
+                    env3 = dict(env)
+                    env3[e.generators[0].target.id] = x
+                    out_elems.append(self.ev(e.elt, env3, cls))
+                return Val(elems=out_elems)
         if isinstance(e, (ast.GeneratorExp, ast.ListComp)):
             env2 = dict(env)
             for g in e.generators:
@@ -283,6 +294,31 @@ class DegreeInterp:
                         return r
         return None
 
+    def callee_origin(self, f: ast.AST, cls: ClassInfo, depth: int = 0) -> ast.AST:
+        """what a called name stands for: module-level `x = lib.f`, class-level `x = staticmethod(lib.f)` aliases are followed"""
+        if depth > 4:
+            return f
+        d: Optional[ast.AST] = None
+        if isinstance(f, ast.Name):
+            d = cls.module.assigns.get(f.id)
+        elif isinstance(f, ast.Attribute) and isinstance(f.value, ast.Name) and f.value.id in ("self", "cls", cls.name) \
+                and self.prog.resolve_method(cls, f.attr) is None:
+            for c in self.prog.mro(cls):
+                for st in c.node.body:
+                    if isinstance(st, ast.Assign) and any(isinstance(t, ast.Name) and t.id == f.attr for t in st.targets):
+                        d = st.value
+                        cls = c
+                        break
+                if d is not None:
+                    break
+        if d is None:
+            return f
+        while isinstance(d, ast.Call) and norm(d.func) in ("staticmethod", "classmethod") and len(d.args) == 1:
+            d = d.args[0]
+        if isinstance(d, (ast.Name, ast.Attribute)):
+            return self.callee_origin(d, cls, depth + 1)
+        return f
+
     def call(self, e: ast.Call, env: Dict[str, Val], cls: ClassInfo) -> Val:
         f = e.func
         args = [self.ev(a, env, cls) for a in e.args if not isinstance(a, ast.Starred)]
@@ -293,8 +329,12 @@ class DegreeInterp:
                 if isinstance(a.value, ast.Name) and ("*" + a.value.id) in env:
                     v = env["*" + a.value.id]
                 star.extend(v.elems if v.elems is not None else [Val(v.deg)] * 3)
+        f = self.callee_origin(f, cls)
         name = norm(f)
         short = name.split(".")[-1]
+        if name in self.c_degrees:
+            allargs = args + star
+            return Val(dscale(allargs[0].deg, Fraction(self.c_degrees[name]))) if allargs else Val(ZERO)
         if short in ("sqrt",):
             return Val(dscale(args[0].deg, Fraction(1, 2))) if args else Val(ZERO)
         if short in ("abs", "fabs", "float", "max", "min", "copy"):
